@@ -115,6 +115,29 @@ pub fn round_trip(ctx: &mut Ctx, index: u64, bytes: &[u8], mut m1: Beatmap) -> O
             return None;
         }
     };
+    // the encoding that is read back may have gone through any sink: for a sample of the maps the text
+    // comes from a writer that accepts a few bytes per call
+    let encoded = if index % 5 == 2 {
+        use crate::obs::io::{FaultWriter, WriteFault};
+        let mut w = FaultWriter::new(WriteFault::None, usize::MAX);
+        w.short = vec![[1usize, 3, 8][(index as usize / 5) % 3]];
+        ctx.count("round_trips_through_a_short_writing_sink");
+        match m1.encode(&mut w) {
+            Ok(()) => match String::from_utf8(w.out) {
+                Ok(s) => s,
+                Err(_) => {
+                    ctx.violation("encode_not_utf8", "the text received by a short-writing sink is not UTF-8".into(), index, bytes);
+                    return None;
+                }
+            },
+            Err(e) => {
+                ctx.violation("encode_err_in_memory", format!("encode into a short-writing in-memory sink failed: {e:?}"), index, bytes);
+                return None;
+            }
+        }
+    } else {
+        encoded
+    };
     let mut m2 = match rosu_map::from_str::<Beatmap>(&encoded) {
         Ok(m) => m,
         Err(e) => {
